@@ -51,7 +51,7 @@ def run(ctx):
                 r["stages"][8] = -1    # write started but never finished
                 return recs
         return recs
-    big = max(traces, key=os.path.getsize)
+    big = sorted(traces, key=os.path.getsize, reverse=True)
     for f, name in ((extra_finish, "a finish without a start"), (drop_start, "second request handled without a start"),
                     (wrong_request, "finish carries another request's data"), (stage_disorder, "stage events out of order"),
                     (unfinished_stage, "a started stage never finished")):
